@@ -103,3 +103,15 @@ From DV.proofs Require Import ClassFacts CF_C01.
 Theorem C03_every_parameter_a_target_path_names_is_supplied : forallb param_row_ok param_table = true.
 Proof. exact target_path_parameters_are_supplied. Qed.
 Print Assumptions C03_every_parameter_a_target_path_names_is_supplied.
+
+(* the crop CLASSES move the keypoint by the origin of the window their image path cuts ([y1,y2) x [x1,x2) x [z1,z2)):
+   each coordinate minus ITS OWN window minimum, angle and scale untouched -- Crop, RandomCropFromBorders and
+   RandomCropNearBBox (generated class methods), for every window, frame and real keypoint *)
+From DV.gen Require Import Gen_cls_crops.
+Theorem C03_crop_classes_shift_the_keypoint_by_the_window_origin : forall x y z a sc x1 x2 y1 y2 z1 z2 c r s,
+  let moved := (x - inject_Z x1, y - inject_Z y1, z - inject_Z z1, a, sc) in
+  Crop_apply_to_keypoint x2 x1 y2 y1 z2 z1 (x, y, z, a, sc) c r s = moved /\
+  RandomCropFromBorders_apply_to_keypoint (x, y, z, a, sc) x1 x2 y1 y2 z1 z2 c r s = moved /\
+  RandomCropNearBBox_apply_to_keypoint (x, y, z, a, sc) x1 y1 z1 x2 y2 z2 c r s = moved.
+Proof. intros. repeat split; reflexivity. Qed.
+Print Assumptions C03_crop_classes_shift_the_keypoint_by_the_window_origin.
